@@ -405,6 +405,9 @@ def gen_history(r, version, opts=None):
         if rem and gen.fair(r, o["p_readd"]):
             # the same line object leaves the Gfa and comes back
             i = gen.choice(r, rem)
+            busy = [j for j in rem if st.model.recs[j].rt == "S" and len(st.model.dependants(st.model.recs[j])) >= 2]
+            if busy and gen.chance(r, 0.5):
+                i = gen.choice(r, busy)  # a segment with several kinds of dependants: they go, it returns alone
             rec = st.model.recs[i]
             ops.append(["readd", i, gen.choice(r, ["rm", "disc"])])
             st.model.remove(rec)
